@@ -68,6 +68,11 @@ def cases(seed, tier):
         if not any(k in gen.PROBE_KEX for k in p['kex']):
             p['kex'].insert(0, 'curve25519-sha256')
         perts = rng.sample(PERT, rng.randrange(2, 5))
+        r4 = gen.case_rng(seed, ID, i, 'empty')
+        if r4.random() < 0.06:
+            # an AEAD-only peer with empty MAC name-lists: the policy made from it covers that (empty) list too
+            p['mac'] = []
+            perts = perts + ['fill_empty']
         r3 = gen.case_rng(seed, ID, i, 'unsignable')
         fam = [a for a in p['key'] if a in gen.RSA_FAMILY]
         if len(fam) >= 2 and r3.random() < 0.3:
@@ -144,6 +149,11 @@ def perturb(rng, prof, kind):
         if p['gex']['sizes'][0] not in (1024, 1536, 3072, 4096):
             p['gex']['style'] = 'roundup'      # a size off the probe grid can only be measured on a server that rounds requests up to what it has
         return p, 'dh'
+    if kind == 'fill_empty':
+        if p.get('mac'):
+            return None
+        p['mac'] = [rng.choice(['hmac-sha2-256', 'hmac-sha1', 'umac-128-etm@openssh.com'])]
+        return p, 'mac'
     if kind == 'gex_one':
         algs = [g for g in gen.GEX if g in p['kex']]
         if 'gex' not in p or len(algs) < 2:
